@@ -205,6 +205,12 @@ def special_programs():
             for pre in ('', '형... 항. ', rd, rd + '형... 항.. '):
                 for post in ('', ' 형... 항.'):
                     out.append(pre + w + post)
+    # fractions with multi-limb parts and huge integers (arithmetic helpers must not panic either)
+    for n in (1 << 32, (1 << 32) + 1, 1 << 66, (1 << 64) - 1):
+        out.append('%s 흡... 흣.' % push_value(n))                       # prints 1/n
+        out.append('%s 형....... 하앗... 흡... 흣.' % push_value(n))       # prints 1/(7n)
+        out.append('%s 흡... 형... 하앗... 흑... 하앙... 항.' % push_value(n))   # 6/n written as a character (floor 0)
+        out.append('%s 흑... 하앗... 흑... 하앗... 흣.' % push_value(n))   # n^4 in decimal
     # deep areas (bounded as in C04) and long files
     for unit in ('?', '!', '?♥!', '♥?'):
         out.append('형..' + unit * (4096 // (unit.count('?') + unit.count('!'))) + ' 항.')
@@ -250,7 +256,7 @@ def _task(t):
 
 def run_c13(tier):
     st = Stats()
-    n = 3 if tier == 'quick' else 5
+    n = 3 if tier == 'quick' else 4
     contents = [b''.join(t) for k in range(0, n + 1) for t in itertools.product(FRAGS, repeat=k)]
     contents = list(dict.fromkeys(contents))
     tasks = [('names',)]
